@@ -47,6 +47,8 @@ def mesh_configs(quick):
         dict(kind="bar", mel=1.0, smooth=0), dict(kind="bar_hole", mel=0.8, smooth=3), dict(kind="ring", mel=1.0, smooth=0),
         dict(kind="union", mel=1.0, smooth=0), dict(kind="cross4", mel=1.2, smooth=10),
     ]
+    # a coherence length of exactly 1 length unit (the dimensionless mesh and the device coordinates coincide numerically)
+    c += [dict(kind="bar_hole", mel=1.1, smooth=0, xi=1.0)]
     # a non-convex hole whose vertex mean lies outside it (the mesher needs a point INSIDE each hole)
     c += [dict(kind="Lhole", mel=0.9, smooth=0)]
     # contact pads that reach well into the film (centres of interior edges lie inside the terminal polygons)
@@ -144,6 +146,22 @@ def check_mesh(ctx, cfg, with_model=True):
         back_ = tdgl.Device.from_hdf5(f_["device"])
     ctx.count("meshes_checked_after_reload")
     first = first or check_device_mesh(ctx, dict(cfg, moved="reloaded-from-hdf5"), back_, with_model=False)
+    # a library copy that carries the mesh is moved in place: the ORIGINAL was not touched, its mesh is still the dual of its
+    # own (unmoved) domain; and the copy's mesh is the dual of the moved domain
+    if cfg.get("xi") == 1.0 or ctx.dist.get("meshed_copies_translated_in_place", 0) < (2 if ctx.quick else 10**9):
+        twin = dev.copy(with_mesh=True)
+        sites_before = dev.mesh.sites.copy()
+        twin.translate(dx=3.0 * dev.layer.coherence_length, dy=-1.0 * dev.layer.coherence_length, inplace=True)
+        ctx.count("meshed_copies_translated_in_place")
+        if not np.array_equal(sites_before, dev.mesh.sites):
+            rp = dict(cfg, max_site_shift=float(np.abs(sites_before - dev.mesh.sites).max()))
+            ctx.fail("translating-a-meshed-copy-moves-the-original-mesh", f"translating a copy of a meshed device in place moved the mesh sites of the ORIGINAL device by up to "
+                     f"{rp['max_site_shift']:.3g} (its film, holes and terminals are where they were)", rp)
+            first = first or dict(key="translating-a-meshed-copy-moves-the-original-mesh", what="original mesh moved", **rp)
+        else:
+            first = first or check_device_mesh(ctx, dict(cfg, moved="after-its-meshed-copy-was-translated-in-place"), dev, with_model=False)
+        if cfg.get("xi") == 1.0:
+            first = first or check_device_mesh(ctx, dict(cfg, moved="meshed-copy-translated-in-place"), twin, with_model=False)
     # the same relations hold for the mesh a device carries after it has been moved: in place, and inside the
     # `translation` context manager (and again after leaving it)
     moved = dict(cfg, moved="translate-inplace")
